@@ -257,6 +257,7 @@ int POOL_resize(POOL_ctx* ctx, size_t numThreads)
     ZSTD_pthread_mutex_lock(&ctx->queueMutex);
     result = POOL_resize_internal(ctx, numThreads);
     ZSTD_pthread_cond_broadcast(&ctx->queuePopCond);
+    ZSTD_pthread_cond_broadcast(&ctx->queuePushCond);   /* a higher thread limit can make room for a blocked POOL_add() */
     ZSTD_pthread_mutex_unlock(&ctx->queueMutex);
     return result;
 }
